@@ -760,6 +760,8 @@ func (r *runner) validate(n *native) (validated, mismatches int) {
 func (r *runner) confirm(n *native) int {
 	confirmed := 0
 	seen := map[string]bool{}
+	tStart := time.Now()
+	runs0 := n.runs
 	for i := range r.viols {
 		v := &r.viols[i]
 		if v.Status != "" {
@@ -767,6 +769,10 @@ func (r *runner) confirm(n *native) int {
 		}
 		if confirmed >= 12 {
 			v.Status = "not replayed (12 violations already confirmed)"
+			continue
+		}
+		if time.Since(tStart) > 6*time.Minute || n.runs-runs0 > 1500 {
+			v.Status = "unconfirmed" // confirmation budget spent (6 min / 1500 native runs)
 			continue
 		}
 		h := r.chk.Harnesses[v.H]
@@ -786,7 +792,11 @@ func (r *runner) confirm(n *native) int {
 		final := base
 		if !ok {
 			// generic-position floats, discrete part unchanged
-			for s := 1; s <= 64 && !ok; s++ {
+			maxSeeds := 64
+			if v.V.Kind == "assert" && len(base.Floats) == 0 {
+				maxSeeds = 8 // nothing float-valued to vary
+			}
+			for s := 1; s <= maxSeeds && !ok; s++ {
 				g := modelToReplay(h, it, model, false)
 				g.Check, g.Label, g.Kind, g.Pos, g.Detail, g.Trail = r.chk.ID, v.V.Label, v.V.Kind, v.V.Pos, v.V.Detail, v.V.Trail
 				g.Seed = int(r.seed)*100 + s
